@@ -81,7 +81,19 @@ def run_case(ctx, p, exprs, meta):
             if est == "linear":
                 out = variance_stokes_linear(mk(st0 + noise), sec, acq, nbin=p.get("nbin", 10))
                 results[tuple(order)] = (float(out[0]), float(out[1]))
-                if not (abs(float(out[0]) / p["a"] - 1) < 0.3 and abs(float(out[1]) - p["b"]) < 0.5 * p["b"] + 0.1 * p["a"] * float(st0.mean())):
+                # sampling error of the fitted line: per-bin variance estimates scatter by (a st + b) sqrt(2/m), m residuals per bin
+                inside_l = np.zeros(nx, bool)
+                for a_, b_ in secs_idx:
+                    inside_l[a_:b_ + 1] = True
+                stv = st0[inside_l].ravel()
+                nres = stv.size
+                nb_eff = p.get("nbin", 10)
+                while nres % nb_eff:
+                    nb_eff -= 1
+                sig_v = float((p["a"] * stv.mean() + p["b"]) * np.sqrt(2.0 / (nres / nb_eff)))
+                sig_slope = sig_v / (np.sqrt(nb_eff) * max(float(np.std(stv)), 1e-9))
+                tol_s, tol_o = 6 * sig_slope + 0.05 * p["a"], 6 * sig_slope * float(stv.mean()) + 6 * sig_v / np.sqrt(nb_eff) + 0.05 * p["b"]
+                if not (abs(float(out[0]) - p["a"]) < tol_s and abs(float(out[1]) - p["b"]) < tol_o):
                     ctx.violation(f"linear-slope-offset-not-recovered:shared={int(shared)}", f"planted var = {p['a']}*st + {p['b']}; estimated slope {float(out[0])}, offset {float(out[1])}", rec)
                 continue
             var, resid = fn(mk(st0 + noise), sec, acq)
@@ -174,7 +186,7 @@ def run(ctx):
                          "dictionary in ascending and in reversed order: residuals must be finite exactly at the reference cells, large only in the noisy stretch; noise-free estimate "
                          "~ 0; estimate independent of the order (also of the order of the stretches WITHIN one bath); estimate = variance of the returned residuals = an independent pooled-residual "
                          "reference (SVD rank-1 fit / weighted log-linear fit per stretch, 1e-5), with equal and with very unequal stretch lengths; var(k st) = k^2 var(st); variance_stokes_linear on a planted "
-                         "var = a st + b (slope within 30%); the concatenation order of the constant estimator compared with Model/VarStokes.v in Coq")
+                         "var = a st + b (slope and offset within 6 standard errors of the binned regression); the concatenation order of the constant estimator compared with Model/VarStokes.v in Coq")
     ctx.trusted += ["harness vlib/props/c10.py", "scipy Powell and LSQR are judged, not modelled"]
     ctx.assumptions += ["convergence to s2 (1 - p/n) and slope/offset recovery are sampling support (thorough tier), not theorems", "noise-free ~ 0 is judged relative to the squared mean intensity (1e-6)"]
     exprs, meta = [], []
